@@ -768,6 +768,101 @@ def r18_9(rep: Report) -> None:
         raise AnalysisError('the loop that chains media segment expectations was not found')
 
 
+def r18_10(rep: Report) -> None:
+    """R18.10  an element of a refreshed manifest is checked like any other: the calls that run an element's own
+    checks in `validate()` (`validate_self`, `super().validate()`, `<attribute>.validate()`) are not guarded by
+    an attribute that `merge_previous_element` copies from the element of the previous manifest.  A guard on
+    carried state (`if not self._validated`, with `_validated` taken over from `prev`) switches the checks off
+    for every element that existed before the refresh - a corruption that arrives with the refreshed
+    manifest is reported by nothing."""
+    rid = 'R18.10'
+    classes: dict[str, tuple[str, ast.ClassDef]] = {}
+    for rel in rep.repo.py_files(V):
+        for c in rep.repo.tree(rel).body:
+            if isinstance(c, ast.ClassDef):
+                classes[c.name] = (rel, c)
+
+    def lineage(name: str, seen=()) -> list[ast.ClassDef]:
+        if name not in classes or name in seen:
+            return []
+        c = classes[name][1]
+        out = [c]
+        for b in c.bases:
+            bn = b.id if isinstance(b, ast.Name) else (b.attr if isinstance(b, ast.Attribute) else None)
+            if bn:
+                out += lineage(bn, seen + (name,))
+        return out
+    n = 0
+    for name, (rel, c) in sorted(classes.items()):
+        val = find_func(c, 'validate')
+        if val is None:
+            continue
+        carried: dict[str, ast.AST] = {}
+        for k in lineage(name):
+            mg = find_func(k, 'merge_previous_element')
+            if mg is None:
+                continue
+            prevs = {a.arg for a in mg.args.args[1:]}
+            tainted = set(prevs)
+            for st in ast.walk(mg):
+                if isinstance(st, (ast.Assign, ast.AnnAssign)) and getattr(st, 'value', None) is not None:
+                    tgs = st.targets if isinstance(st, ast.Assign) else [st.target]
+                    if any(isinstance(x, ast.Name) and x.id in tainted for x in ast.walk(st.value)):
+                        for t in tgs:
+                            if isinstance(t, ast.Name):
+                                tainted.add(t.id)
+                            if isinstance(t, ast.Attribute) and norm(t.value) == 'self':
+                                carried[t.attr] = st
+        if not carried:
+            continue
+        n += 1
+        construct = f'{rel}::{name}.validate'
+        bad = None
+        aliases: dict[str, str] = {}
+        for st in ast.walk(val):
+            if isinstance(st, ast.Assign) and len(st.targets) == 1 and isinstance(st.targets[0], ast.Name):
+                for x in ast.walk(st.value):
+                    if isinstance(x, ast.Attribute) and norm(x.value) == 'self' and x.attr in carried:
+                        aliases[st.targets[0].id] = x.attr
+        for call in [x for x in ast.walk(val) if isinstance(x, ast.Call) and isinstance(x.func, ast.Attribute)
+                     and x.func.attr.startswith('validate')]:
+            recv = norm(call.func.value)
+            if not (recv in ('self', 'super()') or recv.startswith('self.')):
+                continue
+            child = call
+            for a in _ancestors(call):
+                if isinstance(a, (ast.If, ast.While)) and not any(x is child for x in ast.walk(a.test)):
+                    for x in ast.walk(a.test):
+                        attr = None
+                        if isinstance(x, ast.Attribute) and norm(x.value) == 'self' and x.attr in carried:
+                            attr = x.attr
+                        if isinstance(x, ast.Name) and x.id in aliases:
+                            attr = aliases[x.id]
+                        # a test of the carried object itself for presence is not a guard on carried state
+                        if attr is not None and not recv.startswith(f'self.{attr}'):
+                            bad = (call, a, attr)
+                if a is val:
+                    break
+                child = a
+            # an early return on carried state in front of the call
+            for st in val.body:
+                if st.lineno >= call.lineno:
+                    break
+                if isinstance(st, ast.If) and any(isinstance(b, ast.Return) for b in st.body):
+                    for x in ast.walk(st.test):
+                        if isinstance(x, ast.Attribute) and norm(x.value) == 'self' and x.attr in carried:
+                            bad = (call, st, x.attr)
+        if bad is None:
+            rep.ok(rid, construct, 'own checks not guarded by carried state', f'carried over a refresh: {sorted(carried)}')
+        else:
+            call, guard, attr = bad
+            rep.fail(rid, construct, 'own checks not guarded by carried state',
+                     f'`{short(call, 40)}` runs only under `{short(guard.test, 50)}`, and `self.{attr}` is taken over from the '
+                     f'element of the previous manifest (`{short(carried[attr], 50)}`): after a refresh the checks of every '
+                     'element that existed before are skipped, so a corruption in the refreshed manifest goes unreported', call)
+    rep.extra['classes_with_carried_state'] = n
+
+
 def analyse(rep: Report) -> None:
     rep.explanation = (
         'Detection side of C18 as an inventory: for each corruption kind of the property the '
@@ -784,6 +879,7 @@ def analyse(rep: Report) -> None:
     rep.rule('R18.7', 'attributes read from self are defined somewhere in the class hierarchy', floor=1)
     rep.rule('R18.8', 'every class listed by a children() method defines what the tree walkers call', floor=6)
     rep.rule('R18.9', 'the expectation chained from one media segment to the next is renewed on every iteration', floor=1)
+    rep.rule('R18.10', 'an element\'s own checks are not switched off by state carried over a manifest refresh', floor=1)
     r18_1_2(rep)
     r18_3(rep)
     r18_4(rep)
@@ -792,3 +888,4 @@ def analyse(rep: Report) -> None:
     r18_7(rep)
     r18_8(rep)
     r18_9(rep)
+    r18_10(rep)
